@@ -391,3 +391,24 @@ for _id in ("C01", "C03", "C07", "C08", "C09", "C10", "C13", "C14", "C15", "C16"
     CHECKS[_id]["rule"] += ARGS_RULE % _id
 
 CHECKS["C18"]["rule"] += CHECKS["C18"].pop("rule_extra")
+
+
+# Additions of round 3 (appended to the rule texts the evidence carries).
+CHECKS["C02"]["rule"] += (" In a fifth of the cases the service's target timeout is 5-100 ms and every request is an event stream that outlives it "
+                          "(the target timeout bounds the wait for response headers only): such requests must still run to their end within the drain timeout.")
+CHECKS["C03"]["rule"] += (" Round-3 shapes: targets of the drained set that fail their probes after the flights started (out of rotation, still busy, when the "
+                          "command runs); earlier pause / stop / resume commands, so that the command under test is not the first of its kind; a target "
+                          "timeout shorter than the drain timeout with streams and upgrades in flight.")
+CHECKS["C04"]["rule"] += " The request matrix includes the absolute-form request line without a path (empty request path: the root prefix matches it)."
+CHECKS["C05"]["rule"] += (" The racing deploys are held at a spin barrier just before they install (hook deploy.before-install, busy-waiting on one atomic flag) "
+                          "and let go together, so their availability checks and installs contend within nanoseconds.")
+CHECKS["C07"]["rule"] += (" Step `flip`: resume and, with nothing allowed to run in between, pause again, after up to 12 further held requests - the requests "
+                          "held so far must be forwarded at that instant (a 503 there is the listed pause-gate finding, counted), later ones are held by the new pause.")
+CHECKS["C09"]["rule"] += (" In a quarter of the cases the proxy is restarted from its state file right after the deploy and everything happens on the restored "
+                          "proxy (targets presumed healthy until their first probe); in half of those the restoring goroutine is held at the hook "
+                          "lb.mark-all-healthy until the bubble is idle.")
+CHECKS["C15"]["rule"] += (" Clients reach the proxy through its own Server.startHTTPServers (the code's http.Server values) on the in-memory network; target "
+                          "timeouts are drawn from 100 ms to 120 s (30 s is the CLI default).")
+CHECKS["C16"]["rule"] += (" Final state (and the restarted proxy): real TLS handshakes against the proxy's own HTTPS server on the in-memory network for every SNI "
+                          "name whose root service is not on automatic TLS - a bound name gets exactly the deployed certificate and a request over the "
+                          "connection is forwarded, not redirected; every other name, and a hello without a name, fails the handshake.")
